@@ -1,0 +1,37 @@
+//go:build verif
+
+// Accessors for the verification harness in /verif. Compiled only with the
+// build tag "verif"; nothing here is reachable from the shipped package.
+
+package originium
+
+// VerifStop stops the two watermark goroutines of a closed DB (the engine
+// itself never stops them).
+func (db *DB) VerifStop() {
+	db.oracle.Stop()
+}
+
+// VerifKill releases the background goroutines of an instance that is being
+// abandoned without Close (simulated process death): it never blocks.
+func (db *DB) VerifKill() {
+	select {
+	case db.closeC <- struct{}{}:
+	default:
+	}
+	for {
+		select {
+		case <-db.flushC:
+			continue
+		default:
+		}
+		break
+	}
+	db.oracle.Stop()
+}
+
+// VerifIdle reports whether no frozen memtable is waiting to be flushed.
+//
+//go:norace
+func (db *DB) VerifIdle() bool {
+	return len(db.flushC) == 0 && db.immutables.Len() == 0
+}
